@@ -113,14 +113,23 @@ def chain_steps(rng, first, n_steps, order_noise=False, keep_identical=True):
     ppt = list(first["ppt"])
     nxt = max(m for m, _ in members) + 1
     steps = []
+    departed = []          # members that left earlier: they may come back still claiming their old assignment
     for _ in range(n_steps):
         kinds = ["same", "minus", "plus"] if keep_identical else ["same", "minus", "plus", "subs", "parts"]
         k = rng.choice(kinds)
+        returning = []
         if k == "minus" and len(members) > 1:
             gone = set(rng.sample([m for m, _ in members], rng.randint(1, len(members) - 1)))
+            departed += [m for m in members if m[0] in gone]
             members = [m for m in members if m[0] not in gone]
         elif k == "plus" and len(members) < 12:
             for _j in range(rng.randint(1, 2)):
+                if departed and rng.random() < 0.5:
+                    # a member that missed one or more generations re-joins with its stale user data
+                    back = departed.pop(rng.randrange(len(departed)))
+                    members = members + [[back[0], list(back[1])]]
+                    returning.append(back[0])
+                    continue
                 s = list(members[0][1]) if keep_identical else sorted(rng.sample(range(len(ppt)), rng.randint(1, len(ppt))))
                 if order_noise:
                     rng.shuffle(s)
@@ -135,7 +144,10 @@ def chain_steps(rng, first, n_steps, order_noise=False, keep_identical=True):
             ppt[t] = rng.choice([None, 0, 1, 2, 5, 12, (ppt[t] or 0) + 1])
         else:
             k = "same"
-        steps.append({"kind": k, "ppt": list(ppt), "members": [list(m) for m in members]})
+        st = {"kind": k, "ppt": list(ppt), "members": [list(m) for m in members]}
+        if returning:
+            st["returning"] = returning
+        steps.append(st)
     return steps
 
 
@@ -166,6 +178,42 @@ def classify_step(prev_members, members):
     return "other"
 
 
+def stale_claims(case):
+    gens = {c[0] for c in (case.get("claims") or []) if c}
+    return len(gens) > 1
+
+
+def check_conflicts_by_generation(ck, case, st, origin, hist):
+    """mechanism 'previous owners recovered from user data, conflicts resolved by generation', stated on the
+    assignor's own starting point (recorded by the op-log wrapper): a partition claimed by several members
+    starts with the claimant of the newest generation, the runner-up is remembered as its previous owner"""
+    subs = {m: set(s) for m, s in case["members"]}
+    ppt = case["ppt"]
+    claimants = {}
+    for (m, _s), cl in zip(case["members"], case.get("claims") or []):
+        if not cl:
+            continue
+        g, parts = cl
+        for t, p in parts:
+            if t < len(ppt) and ppt[t] is not None and p < ppt[t] and t in subs[m]:
+                claimants.setdefault((t, p), []).append((g, m))
+    init = {(t, p): m for m, t, p in st["init"]}
+    prevo = {(t, p): m for t, p, m in st["prev"]}
+    for tp, cl in claimants.items():
+        gs = sorted(cl, reverse=True)
+        if len(gs) < 2 or gs[0][0] == gs[1][0]:
+            continue
+        want_cur, want_prev = gs[0][1], gs[1][1]
+        if init.get(tp) != want_cur or prevo.get(tp) != want_prev:
+            viol(ck, f"partition {tp[0]}-{tp[1]} is claimed by member {want_cur} (generation {gs[0][0]}) and by member "
+                     f"{want_prev} (older generation {gs[1][0]}): the assignor starts from owner {init.get(tp)} / previous "
+                     f"owner {prevo.get(tp)} instead of {want_cur} / {want_prev}",
+                 {"origin": origin, "case": case, "history": hist[:-1], "partition": list(tp),
+                  "claimants": [list(x) for x in gs]},
+                 signature=f"sticky-conflict-not-by-generation:{S.case_key(case)}"[:200])
+            return
+
+
 def check_chain(ck, rounds, tally, streams, origin):
     """rounds: [{"case":…, "sticky":…}] as returned by the impl"""
     prev = None
@@ -177,10 +225,19 @@ def check_chain(ck, rounds, tally, streams, origin):
             break
         ck.count(key=("chain", S.case_key(case)), nontrivial=bool(st.get("final")),
                  sample={"origin": origin, "round": i, "case": case, "result": st["out"]} if i == 2 else None)
+        stale = stale_claims(case)
+        if stale and "init" in st:
+            check_conflicts_by_generation(ck, case, st, origin, hist)
+            tally.n["rounds:stale-claims"] += 1
         if prev is not None:
             pc, pst = prev
             kind = classify_step(pc["members"], case["members"])
             unchanged_layout = pc["ppt"] == case["ppt"]
+            if stale and kind == "plus":
+                # a member that missed generations re-joins with its old claims: the assignor then prefers to hand
+                # partitions back to that previous owner (KIP-341), which may cascade among the others; the
+                # 'plus' clause speaks of NEW members (no previous assignment) - checked on the other rounds
+                kind = "other"
             if kind in ("same", "minus", "plus") and unchanged_layout:
                 mv = check_round_pair(ck, kind, pc, pst["out"], case, st["out"], tally, origin,
                                       extra={"history": hist[:-1], "round": i})
@@ -319,7 +376,7 @@ def run(ck: Check):
     # only every few chains record the op log and go through the (costlier) model side
     every = ck.n(8, 40)
     for idx, ch in enumerate(chains):
-        ch["log"] = int(idx % every == 0)
+        ch["log"] = int(idx % every == 0 or any(st.get("returning") for st in ch["steps"]))
     jobs = [chains[i::NPROC] for i in range(NPROC)]
     t0 = time.time()
     res = run_impl("c14_impl.py", {"jobs": [{"kind": "chains", "chains": j} for j in jobs], "procs": NPROC},
